@@ -14,7 +14,7 @@ from verif.stubs.untraced import fast_jinja
 
 PROPERTY = "C08"
 B = h.bounds(
-    quick=dict(SLEN=3, NPATH=12, SEG=2, TS=36, NSUB=3, UKAA=2, UKB=1, NALPHA=5),
+    quick=dict(SLEN=3, NPATH=12, SEG=2, TS=36, NSUB=3, UKAA=3, UKB=1, NALPHA=5),
     thorough=dict(SLEN=4, NPATH=16, SEG=3, TS=144, NSUB=6, UKAA=3, UKB=2, NALPHA=7),
 )
 PATHS = ["a", "b", "a.a", "a.b", "b.a", "a.a.a", "a.c", "c", "a.b.a", "", "a.a.b", "c.a",
@@ -483,6 +483,8 @@ def check_update_context(ka: int, kaa: int, kab: int, kb: int, sub: int, u: int,
                   recursively=recursively)
     has_default = dflt > 0
     default = [None, 9, {"z": 1}][dflt]
+    if dflt == 2:
+        default = {"z": 1}
     if has_default:
         kwargs["default"] = default
     n_active = int(has_default) + int(skip) + int(rais)
@@ -546,6 +548,14 @@ def check_update_context(ka: int, kaa: int, kab: int, kb: int, sub: int, u: int,
         item = ref_get(got, keys)
         srcnow = ref_get(got, update[2:-2].split("."))
         if item is srcnow and keys != update[2:-2].split("."):
+            return h.ok(False)
+    # the default value is not shared with the context either
+    if is_ctx_value and has_default and isinstance(default, dict) and src is _MISSING:
+        item = ref_get(got, keys)
+        if item is default:
+            return h.ok(False)
+        item["__p__"] = 1
+        if default != {"z": 1}:
             return h.ok(False)
     # a simple dictionary value is copied too: the element can be reused
     if simple and isinstance(update, dict):
